@@ -63,7 +63,7 @@ def binding_ok(match, d):
 
 def check_pair(ctx, src, tree, d, origin):
     pattern = d.pattern
-    case = {'src': src if len(src) < 3500 else src[:3500], 'pattern': pattern, 'origin': origin, 'steps': d.steps,
+    case = {'src': src if len(src) < 3500 else src[:3500], 'pattern': pattern, 'origin': origin, 'steps': d.steps, 'presented': cc.PRESENTED['how'],
             'var_bindings': d.var_bindings, 'func_bindings': getattr(d, 'func_bindings', {}), 'exp_bindings': {k: list(v[:2]) if v else None for k, v in d.exp_bindings.items()}}
     try:
         matches = find(pattern, src)
@@ -152,8 +152,8 @@ def check_program(ctx, rng, src, origin, npatterns):
         tree = ast.parse(src)
     except (SyntaxError, ValueError):
         return
-    clear_report()
-    contextualize_report(src)
+    src = cc.present(ctx, src)
+    tree = ast.parse(src)
     for n in ast.walk(tree):
         for f in cc.BODY_FIELDS:
             if isinstance(getattr(n, f, None), list) and getattr(n, f):
@@ -309,8 +309,7 @@ def run(ctx):
 def replay(ctx, case):
     from pedal.core.commands import clear_report, contextualize_report
     src = case['src']
-    clear_report()
-    contextualize_report(src)
+    cc.present(ctx, src, case.get('presented', 'plain'))
     d = cc.Derived()
     d.pattern = case['pattern']
     d.steps = case.get('steps', [])
